@@ -151,6 +151,35 @@ CLAIMED = {
         "technique": "abstract interpretation (provenance terms, units), regex-literal "
                      "static analysis, table agreement",
     },
+    "C07": {
+        "text": "Decides, by abstract interpretation per kernel configuration (7-10 "
+                "CPU fields), that the scputimes fields are the kernel's columns in "
+                "kernel order read from the right /proc/stat lines and divided by "
+                "CLOCK_TICKS; that total/busy/deltas/cpu_percent have exactly the "
+                "documented rational forms (compared by cross-multiplication) and "
+                "that 0 <= busy <= total follows from sign analysis over clipped "
+                "deltas; cpu_times_percent's per-field share, rounding and clamp; "
+                "Process.cpu_percent == 100*dCPU/dWall with the CPU-count factors "
+                "cancelling, 0.0 first call, ValueError first, samples stored; "
+                "per-thread keys of the four history tables. Known finding: the "
+                "max(1, total) divisor of cpu_times_percent. Wall-clock behaviour is "
+                "not decided.",
+        "note": "Trusted: proc(5) cpu line layout; interpreter subset; clipped deltas "
+                "and kernel counters non-negative.",
+        "technique": "abstract interpretation (provenance, polynomial forms, sign "
+                     "analysis)",
+    },
+    "C08": {
+        "text": "Decides every svmem/sswap field against the documented formula as a "
+                "polynomial over /proc/meminfo keys (kB*1024), including the "
+                "used<0 fallback, percent via usage_percent, MemAvailable "
+                "absent-or-zero fallback and the two clamps, the KeyError policy and "
+                "warning, the watermark-based estimate (pages*PAGESIZE, two min terms) "
+                "and the unit of the swap-in/out page counters. Magnitudes and real "
+                "kernels are not exercised.",
+        "note": "Trusted: meminfo in kB, vmstat/zoneinfo in pages; interpreter subset.",
+        "technique": "abstract interpretation (provenance, polynomial forms, units)",
+    },
 }
 
 NOT_APPLICABLE = {}
